@@ -242,10 +242,17 @@ def _run(plan, ctx, child):
     try:
         mk.write_market(market, dirpath)
         try:
-            src = dbc.CSVDailyBarDataSource(dirpath, Equity)
+            src = dbc.CSVDailyBarDataSource(dirpath, Equity, adjust_prices=cfg.get("adjust", True))
         except Exception as e:
             src = None
         if src is not None:
+            try:
+                # a historical-closes query before any price lookup on this source object
+                src.get_assets_historical_closes(ts(cfg["start"] - 30 * DAY), ts(cfg["end"]),
+                                                 ["EQ:" + s_ for s_ in sorted(market["assets"])])
+                ctx.fault("closes_query_before_first_price_lookup")
+            except Exception:
+                ctx.probe("closes_query_raised")
             for c2 in plan["others"]:
                 sl.run_session(c2, market, monitors=False, shared_source=src)
                 ctx.fault("shared_source_served_other_session")
